@@ -32,9 +32,27 @@ type Parser struct {
 	tokens    []*Token
 	lastToken *Token
 
+	// how deeply the expression being parsed is nested at this point (brackets, call
+	// arguments, subscripts, operands of operator chains); bounded by maxNestingDepth
+	depth int
+
 	// if the parser parses a template document, here will be
 	// a reference to it (needed to access the template through Tags)
 	template *Template
+}
+
+// maxNestingDepth bounds how deeply expressions and tags may be nested in a template's
+// source. The parser and the evaluation of what it builds are recursive: without a bound
+// a source like "{{ (((((…" exhausts the stack, which ends the whole process.
+const maxNestingDepth = 10000
+
+// deeper accounts for n more levels of nesting and refuses to go beyond the bound.
+func (p *Parser) deeper(n int) *Error {
+	p.depth += n
+	if p.depth > maxNestingDepth {
+		return p.Error(fmt.Sprintf("expression is nested too deeply (more than %d levels)", maxNestingDepth), nil)
+	}
+	return nil
 }
 
 // Creates a new parser to parse tokens.
